@@ -529,7 +529,7 @@ PROPS['C20'] = {
 PROPS['C21'] = {
     'module': 'SuironVerif.Props.C21',
     'theorems': ['Suiron.C21.load_is_parse_each', 'Suiron.C21.parseAll_spec', 'Suiron.C21.load_or_reject', 'Suiron.C21.separate_rules_exact', 'Suiron.C21.join_lines_exact',
-                 'Suiron.C21.bad_line_rejected', 'Suiron.C21.layout_of_rule', 'Suiron.C21.strip_comments_exact', 'Suiron.C21.line_of_piece',
+                 'Suiron.C21.bad_line_rejected', 'Suiron.C21.layout_of_rule', 'Suiron.C21.strip_comments_exact', 'Suiron.C21.clean_line_closed', 'Suiron.C21.line_of_piece',
                  'Suiron.C21.comment_line_ignored', 'Suiron.C21.blank_line_ignored', 'Suiron.C21.C21'],
     'oracles': ['C21'],
     'suites': {
